@@ -16,9 +16,9 @@ ID = 'C14'
 LEAN_MODULE = 'PncProofs.C14'
 LEAN_FILE = 'PncProofs/C14.lean'
 NAMESPACE = 'Props.C14'
-LEAN_CONE = ['PncModel.Words', 'PncModel.Camx.Uamiv', 'PncProofs.PrefixLemmas', 'PncProofs.C14']
+LEAN_CONE = ['PncModel.Words', 'PncModel.Camx.Uamiv', 'PncModel.Camx.Slab', 'PncProofs.PrefixLemmas', 'PncProofs.SlabLemmas', 'PncProofs.C13', 'PncProofs.C14']
 LEMMA_FILES = ['PncProofs/PrefixLemmas.lean']
-REQUIRED_THEOREMS = ['prefix_safe', 'odd_cut_raises']
+REQUIRED_THEOREMS = ['prefix_safe', 'odd_cut_raises', 'slab_prefix_safe', 'leading_take', 'take_flatten_uniform']
 RULE = ('three families. (1) small generated uamiv files (1-2 species, 1-2 layers, 1-2x1-2 cells, 1-3 steps) cut at byte offsets: '
         'quick = every record boundary +-{0,1,2,3,4} bytes and 40 random offsets per file; thorough = EVERY byte '
         'offset of each file; compared: raise/no-raise and the complete view (dimension counts, species, '
